@@ -94,7 +94,7 @@ def merge(prop, spec, tier, seed, results, wall, outputs):
     ev_path = os.path.join(os.environ.get("VERIF_EVIDENCE_DIR", os.path.join(VERIF, "evidence")), prop + ".json")
     nt = set()
     classes, excluded, extra = {}, {}, {}
-    evaluations = skipped = 0
+    evaluations = skipped = nt_disjoint = 0
     samples, violations, assumptions = [], [], []
     rule = ""
     exhaustive = None
@@ -103,6 +103,7 @@ def merge(prop, spec, tier, seed, results, wall, outputs):
         evaluations += r.get("evaluations", 0)
         skipped += r.get("skipped_after_deadline", 0)
         nt.update((r.get("nontrivial_hashes") or {}).keys())
+        nt_disjoint += r.get("nontrivial_disjoint_count", 0)
         for k, v in (r.get("classes") or {}).items():
             classes[k] = classes.get(k, 0) + v
         for k, v in (r.get("excluded_known") or {}).items():
@@ -125,7 +126,7 @@ def merge(prop, spec, tier, seed, results, wall, outputs):
             exhaustive = r["exhaustive"] if exhaustive is None else (exhaustive and r["exhaustive"])
     new = [v for v in violations if not v.get("known")]
     known = [v for v in violations if v.get("known")]
-    cov = dict(evaluations=evaluations, distinct_nontrivial=len(nt), rule=rule, samples=samples,
+    cov = dict(evaluations=evaluations, distinct_nontrivial=len(nt) + nt_disjoint, rule=rule, samples=samples,
                classes=classes, excluded_known=excluded, skipped_after_deadline=skipped,
                shards=len(results))
     cov.update(extra)
@@ -223,7 +224,7 @@ def run_check(prop, tier, replay=None):
                     rp = os.path.join(REPLAYS, prop, "crash-%s-s%d-%d.txt" % (tier, seed, sh))
                     os.makedirs(os.path.dirname(rp), exist_ok=True)
                     open(rp, "w").write(text[-20000:])
-                    res.setdefault("violations", []).append(dict(property=prop, signature="process-panic", detail="test process died with a panic in module frames", replay=rp))
+                    res["violations"] = (res.get("violations") or []) + [dict(property=prop, signature="process-panic", detail="test process died with a panic in module frames", replay=rp)]
                 else:
                     infra.append("shard %d failed (rc=%s) without recording a violation" % (sh, rc))
         wall = time.time() - t0
